@@ -27,7 +27,12 @@ func C19_Frame() {
 	if nd.Choice(2) == 1 {
 		opts = append(opts, exec.WithSilent())
 	}
-	nd.Freeze(p, doc, vars)
+	// options given more than once: the caller's maps stay the caller's
+	more := exec.Vars{"w": float64(1), "v": float64(2)}
+	if nd.Choice(2) == 1 {
+		opts = append(opts, exec.WithVars(more), exec.WithTZ())
+	}
+	nd.Freeze(p, doc, vars, more)
 	switch nd.Choice(6) {
 	case 0:
 		p.Query(bg, doc, opts...)
